@@ -2,13 +2,14 @@
 # development helper: apply each behaviour-preserving refactoring, run all 20 quick checks in parallel, list alarms, revert.
 # usage: tools_refactors.sh <dir-with-*/patch.diff>
 cd /verif
+REPO=${VERIF_REPO:-/repo}
 for p in "$1"/*/patch.diff; do
   id=$(basename $(dirname $p))
-  git -C /repo apply $p 2>/dev/null || { echo "$id APPLY-FAILED"; continue; }
+  git -C $REPO apply $p 2>/dev/null || { echo "$id APPLY-FAILED"; continue; }
   for i in 01 02 03 04 05 06 07 08 09 10 11 12 13 14 15 16 17 18 19 20; do
-    (bin/ordalint -repo /repo -property C$i -tier quick -evidence /tmp/rf_ev_C$i.json -known /verif/known_findings.json > /tmp/rf_out_C$i.txt 2>&1; echo $? > /tmp/rf_code_C$i.txt) &
+    (bin/ordalint -repo $REPO -property C$i -tier quick -evidence /tmp/rf_ev_C$i.json -known /verif/known_findings.json > /tmp/rf_out_C$i.txt 2>&1; echo $? > /tmp/rf_code_C$i.txt) &
   done; wait
-  git -C /repo checkout -- . ; git -C /repo clean -fdq -- client server >/dev/null 2>&1
+  git -C $REPO checkout -- . ; git -C $REPO clean -fdq -- client server >/dev/null 2>&1
   res=""
   for i in 01 02 03 04 05 06 07 08 09 10 11 12 13 14 15 16 17 18 19 20; do
     c=$(cat /tmp/rf_code_C$i.txt)
